@@ -14,6 +14,8 @@
                               same gas / status / logs / root and states of equal content, for
                               any two representations and any two sets of choices: C06/C07 over
                               C09's getters, C09.4, C10.3)
+     okO                      which implementation choices can occur (e.g. "a duplicate-free permutation
+                              of the dirty set"); the premise and the theorems are relative to it
      derive_sha               types.DeriveSha = the C10 specification root of {rlp(i) -> item_i}
      calc_uncle_hash, receipts_bloom, receipts_root
                               CalcUncleHash, CreateBloom (C16's model), DeriveSha(Receipts)
@@ -30,7 +32,9 @@
    hands import a parent state with the right content under all those histories is
    checked on the implementation by harness/cmd/c01 (8 histories per chain). *)
 From AQ Require Import Lib.Bytes Lib.Keccak Rlp.RlpSpec Trie.MptSpec Bloom.BloomModel
-  Import.ImportModel Import.ImportProofs.
+  Import.ImportModel Import.ImportProofs Import.DeriveShaCode Import.DeriveShaProofs.
+From AQ Require Trie.TrieModel State.StateSpec State.StateModel.
+From AQ Require Import Import.ImportC09.
 Local Open Scope N_scope.
 
 (* 1. a block is accepted iff the transactions all apply and every commitment of the
@@ -147,14 +151,14 @@ Print Assumptions C01_failed_batch_is_good_prefix.
    gas and root and a state of the same content; the importing node may hold the
    parent state in another representation and make other choices *)
 Theorem C01_built_block_imports :
-  forall (H : bytes -> bytes) (R O S : Type) (content : R -> S)
+  forall (H : bytes -> bytes) (R O S : Type) (content : R -> S) (okO : O -> Prop)
          (apply_msg : O -> exec_env -> N -> R -> N -> bytes -> option (msg_result R))
          (block_start : O -> exec_env -> R -> R) (finalize : O -> exec_env -> list header -> R -> R)
          (root_of : O -> R -> bytes),
-  exec_respects_content R O S content apply_msg block_start finalize root_of ->
+  exec_respects_content R O S content okO apply_msg block_start finalize root_of ->
   forall (tx_gas : N) (o1 o2 : O) (s1 s2 : R) (tmpl : header) (cands : list bytes) (uncles : list header)
          (b : block) (r : results R),
-  content s1 = content s2 -> h_bloom tmpl = 0 ->
+  okO o1 -> okO o2 -> content s1 = content s2 -> h_bloom tmpl = 0 ->
   build_block H R O apply_msg block_start finalize root_of tx_gas o1 s1 tmpl cands uncles = (b, r) ->
   exists r', import_block H R O apply_msg block_start finalize root_of o2 s2 b = Accepted R r' /\
              res_equiv R S content r r'.
@@ -165,16 +169,32 @@ Print Assumptions C01_built_block_imports.
    post-state content are a function of the block and of the parent state's content:
    independent of the representation and of every implementation choice *)
 Theorem C01_import_depends_on_content_only :
-  forall (H : bytes -> bytes) (R O S : Type) (content : R -> S)
+  forall (H : bytes -> bytes) (R O S : Type) (content : R -> S) (okO : O -> Prop)
          (apply_msg : O -> exec_env -> N -> R -> N -> bytes -> option (msg_result R))
          (block_start : O -> exec_env -> R -> R) (finalize : O -> exec_env -> list header -> R -> R)
          (root_of : O -> R -> bytes),
-  exec_respects_content R O S content apply_msg block_start finalize root_of ->
-  forall (o1 o2 : O) (s1 s2 : R) (b : block), content s1 = content s2 ->
+  exec_respects_content R O S content okO apply_msg block_start finalize root_of ->
+  forall (o1 o2 : O) (s1 s2 : R) (b : block), okO o1 -> okO o2 -> content s1 = content s2 ->
   import_equiv R S content (import_block H R O apply_msg block_start finalize root_of o1 s1 b)
                            (import_block H R O apply_msg block_start finalize root_of o2 s2 b).
 Proof. exact import_content_only. Qed.
 Print Assumptions C01_import_depends_on_content_only.
+
+(* The root conjunct of the premise, discharged from C09 for the orders a Go run can take:
+   states = C09 states in canonical form, content = the state, choices = schedulers (for every
+   state an order over the dirty-object map) that produce permutations of a duplicate-free
+   reference order, root = IntermediateRoot = Finalise in that order then (any function `enc`
+   of) the account map.  `_partial`: the three execution conjuncts of exec_respects_content
+   (EVM execution sees the state through its getters only) and representations that differ in
+   caches are not discharged — they remain premises of theorems 3 and 4. *)
+Theorem C01_root_premise_from_C09_partial :
+  forall (H : bytes -> bytes) (del_empty : bool)
+         (enc : StateSpec.res (list (N * StateModel.acct)) -> bytes) (reference : sched)
+         (o1 o2 : sched) (r1 r2 : wf_state),
+  ok_sched reference o1 -> ok_sched reference o2 -> state_of r1 = state_of r2 ->
+  c09_root H del_empty enc o1 r1 = c09_root H del_empty enc o2 r2.
+Proof. exact c09_root_content. Qed.
+Print Assumptions C01_root_premise_from_C09_partial.
 
 (* the value a receipt contributes to the receipt trie determines its status / post-state,
    its cumulative gas and its logs in order (address, topics, data) *)
@@ -185,12 +205,33 @@ Theorem C01_receipt_commits_to_status_and_log_order :
 Proof. exact receipt_item_commits. Qed.
 Print Assumptions C01_receipt_commits_to_status_and_log_order.
 
+(* DeriveSha as the code computes it — trie.Update(rlp(i), item_i) for i = 0.. on an empty
+   trie (any node database), then trie.Hash, over the code-shaped trie of Trie/TrieModel.v —
+   is the `derive_sha` used above (the C10 specification root of the listing): for every hash
+   with 32-byte output, every list shorter than 2^64 of non-empty items (every RLP encoding
+   is non-empty).  Built on C10's history / hash / byte-key theorems. *)
+Theorem C01_derive_sha_code_is_spec :
+  forall (H : bytes -> bytes), (forall x, length (H x) = 32%nat) ->
+  forall (items : list bytes) (d : TrieModel.db),
+  lenN items <= RlpSpec.two64 -> Forall (fun x => x <> []) items ->
+  derive_sha_code H d items = TrieModel.Ok (derive_sha H items).
+Proof. exact derive_sha_code_is_spec. Qed.
+Print Assumptions C01_derive_sha_code_is_spec.
+
+(* ... in particular the receipt root of ValidateState / NewBlock, for every receipt list *)
+Theorem C01_receipts_root_code_is_spec :
+  forall (H : bytes -> bytes), (forall x, length (H x) = 32%nat) ->
+  forall (rs : list receipt) (d : TrieModel.db), lenN rs <= RlpSpec.two64 ->
+  derive_sha_code H d (map (receipt_rlp H) rs) = TrieModel.Ok (receipts_root H rs).
+Proof. exact receipts_root_code_is_spec. Qed.
+Print Assumptions C01_receipts_root_code_is_spec.
+
 (* non-vacuity, with the Gallina Keccak-256: a toy execution layer satisfies the premise;
    the builder keeps 2 of 3 candidates (one is inapplicable) and one uncle; the block
    imports with the builder's results; each single corruption is rejected by the check
    that owns it; a different parent content is a state-root mismatch *)
 Example C01_example :
-  exec_respects_content N unit N (fun s => s) ex_apply ex_start ex_finalize ex_root /\
+  exec_respects_content N unit N (fun s => s) (fun _ => True) ex_apply ex_start ex_finalize ex_root /\
   let imp := import_block keccak256 N unit ex_apply ex_start ex_finalize ex_root tt in
   let '(b, r) := build_block keccak256 N unit ex_apply ex_start ex_finalize ex_root 21000 tt 500
                              ex_template ex_cands [ex_uncle] in
